@@ -1,7 +1,7 @@
-(* C07 requests: 700..713. *)
+(* C07 requests: 700..716. *)
 From Coq Require Import List ZArith Bool.
 From PV Require Import lib.Sx lib.Str lib.Result.
-From PV Require Import model.DfxpXml model.DfxpRegion model.DfxpDoc spec.SpecXmlAttr extract.OrCommon.
+From PV Require Import model.DfxpXml model.DfxpRegion model.DfxpDoc model.DfxpSkel model.DfxpSkelHead spec.SpecXmlAttr spec.SpecXmlDoc extract.OrCommon.
 Import ListNotations.
 Open Scope Z_scope.
 
@@ -68,6 +68,22 @@ Definition sx_dset (x : sx) : option dset :=
       | Some l, Some sts, Some ls => Some (mkDset l sts ls) | _, _, _ => None end
   | _ => None end.
 
+(* wave 7: the tree the writer built: [tt attrs; [style attrs ...]; [region attrs ...]; [[div attrs; [[p attrs; payload] ...]] ...]] *)
+Definition sx_skp (x : sx) : option skp :=
+  match x with SL [a; SS t] => match sx_pairs a with Some a => Some (mkSkp a t) | None => None end | _ => None end.
+Definition sx_skdiv (x : sx) : option skdiv :=
+  match x with
+  | SL [a; ps] => match sx_pairs a, sx_listof sx_skp ps with Some a, Some ps => Some (mkSkdiv a ps) | _, _ => None end
+  | _ => None end.
+Definition sx_skdoc (x : sx) : option skdoc :=
+  match x with
+  | SL [ta; sts; rgs; dvs] =>
+      match sx_pairs ta, sx_listof sx_pairs sts, sx_listof sx_pairs rgs, sx_listof sx_skdiv dvs with
+      | Some ta, Some sts, Some rgs, Some dvs => Some (mkSkdoc ta sts rgs dvs) | _, _, _, _ => None end
+  | _ => None end.
+Definition count_opens (evs : list xev) : Z :=
+  Z.of_nat (length (filter (fun e => match e with EOpen _ _ => true | _ => false end) evs)).
+
 Definition dispatch (code : Z) (arg : sx) : option sx :=
   match code with
   | 700 => Some (match arg with SS v => SS (attr_out v) | _ => bad end)
@@ -125,6 +141,18 @@ Definition dispatch (code : Z) (arg : sx) : option sx :=
                              SL [of_list SS (s_ids s); of_list SS (s_style_ids s); of_list SS (s_region_ids s);
                                  of_list SS (s_style_refs s); of_list SS (s_region_refs s); of_bool (dom_single pl d)]
                      | _, _ => bad end
+                 | _ => bad end)
+  | 716 => Some (match sx_listof (fun y => match y with          (* the style table -> the <style> dictionaries of the tree *)
+                                            | SL [SS id; c] => match sx_pairs c with Some c => Some (id, c) | None => None end
+                                            | _ => None end) arg with
+                 | Some table => of_list of_pairs (style_elems table)
+                 | None => bad end)
+  | 714 => Some (match sx_skdoc arg with Some d => SS (dfxp_document d) | None => bad end)   (* the rendered document *)
+  | 715 => Some (match arg with          (* a document text -> [accepted by the document machine; ns_ok; tt in TTML ns; elements] *)
+                 | SS s => match doc_parse s with
+                           | Some evs => SL [of_bool true; of_bool (ns_ok evs); of_bool (root_in_ns (lit "tt") ttml_ns evs);
+                                             SI (count_opens evs)]
+                           | None => SL [of_bool false; of_bool false; of_bool false; SI 0] end
                  | _ => bad end)
   | _ => None
   end.
